@@ -19,6 +19,12 @@ pub enum AOp {
     /// manager `m` opens the archives of the directory again (`open_all`), taking over what the
     /// files hold by now
     Reopen { m: u8 },
+    /// `len` bytes of slack appended to the newest data file through a plain file handle
+    /// (preallocation / a foreign writer's garbage): what compaction is there to reclaim
+    Slack { len: u32 },
+    /// a `data.tmp` left behind by a compaction that was interrupted between its copy and its
+    /// rename: a copy of the newest data file as it is now
+    StaleTmp,
 }
 
 #[derive(Debug, Clone, Serialize, Deserialize)]
@@ -33,8 +39,24 @@ pub fn strategy() -> BoxedStrategy<ACase> {
     let len = prop_oneof![4 => 0u32..2000, 3 => 2000u32..200_000, 2 => 400_000u32..1_600_000];
     // manager 0 only compacts (a manager that appends after another handle did would overwrite the
     // other's bytes: two writers on one archive are outside what the code supports)
-    let op = prop_oneof![6 => len.clone().prop_map(|len| AOp::Write { m: 1, len }), 3 => (0u8..2).prop_map(|m| AOp::Compact { m }), 2 => (0u8..2).prop_map(|m| AOp::Reopen { m })];
+    let op = prop_oneof![6 => len.clone().prop_map(|len| AOp::Write { m: 1, len }), 3 => (0u8..2).prop_map(|m| AOp::Compact { m }), 2 => (0u8..2).prop_map(|m| AOp::Reopen { m }), 2 => prop_oneof![Just(1_200_000u32), 100u32..4_000_000].prop_map(|len| AOp::Slack { len }), 1 => Just(AOp::StaleTmp)];
     (proptest::collection::vec(len, 0..4), proptest::collection::vec(op, 1..8), any::<u64>()).prop_map(|(first, ops, seed)| ACase { first, ops, seed }).boxed()
+}
+
+fn data_files(dir: &std::path::Path) -> Vec<std::path::PathBuf> {
+    let mut v: Vec<_> = std::fs::read_dir(dir)
+        .map(|rd| rd.flatten().map(|e| e.path()).filter(|p| p.file_name().and_then(|n| n.to_str()).is_some_and(|n| n.starts_with("data.") && n.len() == 8 && n[5..].bytes().all(|b| b.is_ascii_digit()))).collect())
+        .unwrap_or_default();
+    v.sort();
+    v
+}
+
+fn newest_data_file(dir: &std::path::Path) -> Option<std::path::PathBuf> {
+    data_files(dir).pop()
+}
+
+fn data_bytes(dir: &std::path::Path) -> u64 {
+    data_files(dir).iter().filter_map(|p| std::fs::metadata(p).ok()).map(|m| m.len()).sum()
 }
 
 struct Obj {
@@ -76,11 +98,16 @@ pub fn check(c: &ACase) -> Verdict {
     };
     let (mut compacted_behind, mut appended) = (false, 0u64);
     let (mut reopened_behind, mut compacted_after_reopen) = (false, false);
+    let (mut slack, mut stale_tmp, mut compacted) = (0u64, false, false);
+    // the data files grew through another handle since manager m last looked at them (its own
+    // write or open_all): its idea of their size is out of date, and so is what it can report
+    let mut stale_view = [false, false];
     for (n, op) in c.ops.iter().enumerate() {
         match op {
             AOp::Write { len, .. } => {
                 store(&mut m1, 1, *len, &mut objs, &mut r);
                 appended += u64::from(*len);
+                stale_view = [true, false];
             }
             AOp::Reopen { m } => {
                 let res = if *m == 0 { rt.block_on(m0.open_all()) } else { rt.block_on(m1.open_all()) };
@@ -90,9 +117,40 @@ pub fn check(c: &ACase) -> Verdict {
                 if *m == 0 && appended > 0 {
                     reopened_behind = true;
                 }
+                stale_view[usize::from(*m).min(1)] = false;
+            }
+            AOp::Slack { len } => {
+                if let Some(p) = newest_data_file(dir.path()) {
+                    use std::io::Write;
+                    if let Ok(mut f) = std::fs::OpenOptions::new().append(true).open(&p) {
+                        let _ = f.write_all(&vec![0x5Au8; *len as usize]);
+                        slack += u64::from(*len);
+                        stale_view = [true, true];
+                    }
+                }
+            }
+            AOp::StaleTmp => {
+                if let Some(p) = newest_data_file(dir.path()) {
+                    let _ = std::fs::copy(&p, p.with_extension("tmp"));
+                    stale_tmp = true;
+                }
             }
             AOp::Compact { m } => {
+                let before_len = data_bytes(dir.path());
                 let res = if *m == 0 { m0.compact() } else { m1.compact() };
+                if let Ok(st) = &res {
+                    // "reports the bytes saved truthfully"
+                    let after_len = data_bytes(dir.path());
+                    if st.archives_compacted > 0 {
+                        compacted = true;
+                    }
+                    if !stale_view[usize::from(*m).min(1)] && st.bytes_reclaimed != before_len.saturating_sub(after_len) {
+                        return Verdict::fail(
+                            "C18:archive-compact:bytes-reclaimed-untruthful",
+                            format!("op #{n} {op:?}: compact() reports {} bytes reclaimed in {} archive(s); the data files shrank from {before_len} to {after_len} bytes", st.bytes_reclaimed, st.archives_compacted),
+                        );
+                    }
+                }
                 if *m == 0 && reopened_behind {
                     compacted_after_reopen = true;
                 }
@@ -144,6 +202,10 @@ pub fn check(c: &ACase) -> Verdict {
     Verdict::pass()
         .nontrivial(compacted_behind && !objs.is_empty())
         .class_if(compacted_behind, "compact-by-a-manager-that-did-not-see-the-appends")
+        .class_if(slack > 0, "slack-appended-to-an-archive")
+        .class_if(stale_tmp, "data.tmp-left-by-an-interrupted-compaction")
+        .class_if(compacted, "an-archive-was-compacted")
+        .class_if(compacted && stale_tmp, "compacted-with-a-stale-data.tmp-present")
         .class_if(reopened_behind, "first-manager-opens-the-grown-archives-again")
         .class_if(compacted_after_reopen, "compact-after-opening-the-grown-archives-again")
         .class_if(appended > 1_048_576, "appended>1MiB-behind-the-first-manager")
